@@ -80,10 +80,10 @@ def run_check(prop, tier, seed, replay=None):
     listed = set(f.get('line') for f in lib.load_known().get('findings', []) if f.get('property') == prop.id)
     if not getattr(prop, '_known_wrapped', False):
         _k = prop.known
-        prop.known = lambda *a, _k=_k: (lambda r: r if r in listed else None)(_k(*a))
+        prop.known = lambda *a, _k=_k, _l=frozenset(listed): (lambda r: r if r in _l else None)(_k(*a))
         if hasattr(prop, 'known_case'):
             _kc = prop.known_case
-            prop.known_case = lambda *a, _kc=_kc: (lambda r: r if r in listed else None)(_kc(*a))
+            prop.known_case = lambda *a, _kc=_kc, _l=frozenset(listed): (lambda r: r if r in _l else None)(_kc(*a))
         prop._known_wrapped = True
 
     def say(s):
@@ -119,10 +119,10 @@ def run_check(prop, tier, seed, replay=None):
         axioms = ax.group(1).strip() if ax else '?'
         proofs['cmd'] += ' && coqchk -o -silent -R . Xeh Xeh.Props.%s' % prop.id
         proofs['coqchk'] = dict(ok=okc, axioms=axioms)
-        listed = [] if axioms == '<none>' else [a.strip() for a in axioms.split('\n') if a.strip()]
+        ax_listed = [] if axioms == '<none>' else [a.strip() for a in axioms.split('\n') if a.strip()]
         allowed = lib.AXIOM_ALLOW if any(m in lib.AXIOM_ALLOW_FILES for m in lib.prop_files(prop.id)) else set()
-        stray = [a for a in listed if not any(a == b or a.endswith('.' + b) for b in allowed)]
-        proofs['coqchk']['axioms'] = ', '.join(listed) if listed else '<none>'
+        stray = [a for a in ax_listed if not any(a == b or a.endswith('.' + b) for b in allowed)]
+        proofs['coqchk']['axioms'] = ', '.join(ax_listed) if ax_listed else '<none>'
         if not okc or axioms == '?' or stray:
             proofs['failures'].append('coqchk: %s' % (outc[-600:] if not okc else 'axioms: ' + ', '.join(stray or [axioms])))
     model_exe = lib.build_model_driver()
